@@ -121,7 +121,7 @@ PASS_THROUGH_FNS = (
     "core::future::into_future::IntoFuture::into_future", "core::pin::Pin::<Ptr>::new_unchecked",
     "core::iter::traits::collect::IntoIterator::into_iter", "alloc::string::ToString::to_string",
     "alloc::string::String::as_str", "alloc::string::String::as_bytes", "core::str::<impl str>::as_bytes",
-    "alloc::slice::<impl [T]>::to_vec",
+    "alloc::slice::<impl [T]>::to_vec", "core::result::Result::<T, E>::map_err", "core::result::Result::<T, E>::ok",
     "core::pin::Pin::<Ptr>::new",
 )
 
